@@ -158,11 +158,17 @@ func checkC20(cc any) *ev.Verdict {
 		return v.Failf("check-status", "`numscript check` exits with %d but the library counts %d error(s) among %d diagnostic(s)\nscript: %q\nstdout: %s", pc.status, nerr, len(a.raw), text, pc.stdout)
 	}
 	plain := ansiRe.ReplaceAllString(pc.stdout, "")
-	// one `FILE:L:C` position per diagnostic, each followed (somewhere later) by its message;
-	// the exact layout, colours and wording of the severity are not part of the property
-	headers := regexp.MustCompile(`(?m)^`+regexp.QuoteMeta(scriptPath)+`:\d+:\d+\b`).FindAllString(plain, -1)
-	if len(headers) != len(a.raw) {
+	// every diagnostic is printed with its position (line:column, counted from 0 or from 1
+	// throughout) and, after it, its message; the layout, the order, colours and the wording
+	// of the severity and of the summary are not part of the property. When the file name is
+	// printed with the positions, there are exactly as many of those as diagnostics.
+	headers := regexp.MustCompile(regexp.QuoteMeta(scriptPath)+`:\d+:\d+`).FindAllString(plain, -1)
+	if len(headers) != 0 && len(headers) != len(a.raw) {
 		return v.Failf("check-count", "`numscript check` prints %d diagnostics, the library reports %d\nscript: %q\nstdout: %s", len(headers), len(a.raw), text, plain)
+	}
+	prefix := ""
+	if len(headers) != 0 {
+		prefix = regexp.QuoteMeta(scriptPath) + ":"
 	}
 	okOffset := false
 	var missing string
@@ -170,13 +176,20 @@ func checkC20(cc any) *ev.Verdict {
 		wantPos := map[string]int{}
 		wantBlock := map[string]int{}
 		for _, d := range a.raw {
-			pos := fmt.Sprintf("%s:%d:%d", scriptPath, d.Range.Start.Line+off, d.Range.Start.Character+off)
+			pos := fmt.Sprintf("%d:%d", d.Range.Start.Line+off, d.Range.Start.Character+off)
 			wantPos[pos]++
 			wantBlock[pos+"\x00"+d.Kind.Message()]++
 		}
+		posRe := func(pos string) *regexp.Regexp {
+			if prefix != "" {
+				return regexp.MustCompile(prefix + regexp.QuoteMeta(pos) + `(\D|$)`)
+			}
+			return regexp.MustCompile(`(^|[^\d:])` + regexp.QuoteMeta(pos) + `(\D|$)`)
+		}
 		all := true
 		for pos, n := range wantPos {
-			if len(regexp.MustCompile(`(?m)^`+regexp.QuoteMeta(pos)+`\b`).FindAllString(plain, -1)) != n {
+			got := len(posRe(pos).FindAllString(plain, -1))
+			if got < n || (prefix != "" && got != n) {
 				all = false
 				missing = pos
 			}
@@ -186,12 +199,13 @@ func checkC20(cc any) *ev.Verdict {
 			// the message must appear after its position at least n times
 			cnt := 0
 			rest := plain
+			re := posRe(parts[0])
 			for {
-				i := strings.Index(rest, parts[0])
-				if i < 0 {
+				loc := re.FindStringIndex(rest)
+				if loc == nil {
 					break
 				}
-				rest = rest[i+len(parts[0]):]
+				rest = rest[loc[1]-1:]
 				if strings.Contains(rest, parts[1]) {
 					cnt++
 				}
